@@ -38,6 +38,10 @@ MUTANTS = [
   "\t\tif recorded := node.data.Step.OutputVariables; recorded != nil {\n\t\t\trecorded.Range(graph.restoreOutputVariable)\n\t\t}\n\t\tgraph.add(node)\n",
   "\t\tgraph.add(node)\n\t\tif recorded := node.data.Step.OutputVariables; recorded != nil {\n\t\t\trecorded.Range(graph.restoreOutputVariable)\n\t\t}\n", "C10", "C10.outputs-restored",
   "recorded outputs read after the node was re-pointed (bound-method callback)"),
+ ("C18-r4", "internal/persistence/local/dag_store.go", "\tif to != from && to.exists() {", "\tif to != from && to.exists() && len(newID) == 0 {", "C18", "C18.rename-guard",
+  "the rename (behind a forwarder on a path type) no longer refuses an existing target"),
+ ("C18-r4", "internal/persistence/local/spec_file.go", "\tif _, err := file.Write(content); err != nil {\n\t\treturn err\n\t}\n", "\t_, _ = file.Write(content)\n", "C18", "C18.atomic-save",
+  "the helper that stages the new text no longer reports a failed write"),
 ]
 def keys(tree, prop):
     p = subprocess.run([BD, "-prop", prop, "-keys", "-dir", tree], env=ENV, capture_output=True, text=True)
